@@ -113,30 +113,30 @@ def _viewguard(ck: Checker) -> None:
                 ck.require(w is None, "C17.viewguard", inner, n, "traversal builds nodes only for the root or for accepted keys", "view traversal builds nodes for rejected keys", witness=g.fmt_path(w) if w else None)
 
 
-def _loadonce(ck: Checker) -> None:
+def _loadonce(ck: Checker, rule: str = "C17.loadonce") -> None:
     prog = ck.prog
     fn = prog.func("index.index", "DataIndex._load")
     g = ck.cfg(fn)
     loads = [n for n in g.nodes.values() for c in calls_at(n) if call_name(c) == "_load_from_storage"]
-    ck.floor("C17.loadonce", len(loads), 1, "storage load calls in DataIndex._load")
+    ck.floor(rule, len(loads), 1, "storage load calls in DataIndex._load")
     ld = loads[0]
     w = cut(g, [ld.id], lambda t, lab: t.kind == "test" and norm(t.ast) == "entry.loaded" and lab == "F")
-    ck.require(w is None, "C17.loadonce", fn, ld, "storage is consulted only for entries not yet loaded", "an already loaded entry can be loaded again", witness=g.fmt_path(w) if w else None)
+    ck.require(w is None, rule, fn, ld, "storage is consulted only for entries not yet loaded", "an already loaded entry can be loaded again", witness=g.fmt_path(w) if w else None)
     marks = [n for n in g.nodes.values() if n.kind == "stmt" and isinstance(n.ast, ast.Assign) and norm(n.ast.targets[0]) == "entry.loaded"]
-    ck.floor("C17.loadonce", len(marks), 1, "entry.loaded assignments")
+    ck.floor(rule, len(marks), 1, "entry.loaded assignments")
     for mk in marks:
-        ck.require(isinstance(mk.ast.value, ast.Constant) and mk.ast.value.value is True, "C17.loadonce", fn, mk, "marks loaded=True", f"unexpected {mk.text()}", construct=f"{mk.text()} / value")
+        ck.require(isinstance(mk.ast.value, ast.Constant) and mk.ast.value.value is True, rule, fn, mk, "marks loaded=True", f"unexpected {mk.text()}", construct=f"{mk.text()} / value")
         w = avoiding_path(g, mk.id, lambda x: x.id == ld.id)
-        ck.require(w is None, "C17.loadonce", fn, mk, "entry is marked loaded only after the load ran", "entry can be marked loaded without having been loaded", witness=g.fmt_path(w) if w else None, construct=f"{mk.text()} / after load")
+        ck.require(w is None, rule, fn, mk, "entry is marked loaded only after the load ran", "entry can be marked loaded without having been loaded", witness=g.fmt_path(w) if w else None, construct=f"{mk.text()} / after load")
         hs = [h for h in g.nodes.values() if h.kind == "handler"]
         for h in hs:
             r = g.reach([h.id])
-            ck.require(mk.id not in r, "C17.loadonce", fn, mk, "a failed load never marks the entry as loaded", "a failed load (handler path) can still mark the entry as loaded", construct=f"{mk.text()} / not from handler")
+            ck.require(mk.id not in r, rule, fn, mk, "a failed load never marks the entry as loaded", "a failed load (handler path) can still mark the entry as loaded", construct=f"{mk.text()} / not from handler")
         # re-store the marked entry
         stores = {n.id for n in g.nodes.values() if n.kind == "stmt" and isinstance(n.ast, ast.Assign) and isinstance(n.ast.targets[0], ast.Subscript)
                   and norm(n.ast.targets[0].value) == "self._trie" and norm(n.ast.targets[0].slice) == "key" and norm(n.ast.value) == "entry"}
         r = g.reach([d for _l, d in mk.succ], skip_node=lambda x: x.id in stores, skip_edge=lambda a, l, b: l == "exc")
-        ck.require(bool(stores) and g.exit not in r, "C17.loadonce", fn, mk, "the marked entry is written back to the trie",
+        ck.require(bool(stores) and g.exit not in r, rule, fn, mk, "the marked entry is written back to the trie",
                    "the loaded flag is only set on the in-memory object and never written back to the trie: a persistent (SQLite) index forgets that the directory was loaded", construct=f"{mk.text()} / re-store")
 
 
